@@ -154,8 +154,16 @@ pub fn validate_case(c: &JoinCase) -> Result<(), String> {
     for (j, col) in c.b.cols.iter().enumerate() {
         if let Some(i) = col_index(&c.a, &col.name) {
             let paired = c.keys.iter().any(|(h0, h1)| h1 == &col.name && h0 == &c.a.cols[i].name);
-            if !(kb.contains(&j) && paired) {
+            // a key header of b may also be the name of a NON-key column of a (type inference
+            // accepts it: only non-key columns of b must not clash); for Full joins the builder
+            // rejects that (counted as a builder rejection)
+            let a_nonkey = !ka.contains(&i);
+            if !(kb.contains(&j) && (paired || a_nonkey)) {
                 return Err("shared-column-name".into());
+            }
+            if kb.contains(&j) && !paired && a_nonkey && jt_name(c.jt) == "full" {
+                // rejected when the node is added (a full join would need two columns of that name)
+                return Err("full-join-key-name-clash".into());
             }
         }
     }
@@ -841,7 +849,16 @@ fn materialize(s: &Spec) -> JoinCase {
             cols.push(Col { name, st: k.st, row: k.row.clone() });
         }
         for (i, p) in pay.iter().enumerate() {
-            cols.push(Col { name: format!("{}{}", if side == 0 { "x" } else { "y" }, i), st: p.st, row: p.row.clone() });
+            // a quarter of the cases with a renamed key: the first payload column of the FIRST table
+            // carries the name of the second table's key column (accepted by type inference for
+            // inner/left/union joins; it stays an ordinary payload column of the first table)
+            let clash = side == 0 && i == 0 && (s.order_a[0] ^ s.order_b[0]) & 3 == 0;
+            let renamed_key = s.keys.iter().position(|k| k.rename);
+            let name = match (clash, renamed_key) {
+                (true, Some(ki)) => format!("K{}", ki),
+                _ => format!("{}{}", if side == 0 { "x" } else { "y" }, i),
+            };
+            cols.push(Col { name, st: p.st, row: p.row.clone() });
         }
         let mut idx: Vec<usize> = (0..cols.len()).collect();
         idx.sort_by_key(|i| order[*i % 5]);
